@@ -17,26 +17,44 @@ import (
 	"github.com/aukilabs/hagall-common/messages/hagallpb"
 )
 
-// verifField: the unique field of struct *ptr whose type is that of sample
-func verifField(ptr any, sample any) (reflect.Value, error) {
+// verifField: the field of struct *ptr whose type is that of sample. The type alone identifies it when it is unique (so a
+// renamed field is still found); when several fields have that type (a second index of the same shape was added) the one
+// that still carries one of the original names is taken.
+func verifField(ptr any, sample any, names ...string) (reflect.Value, error) {
 	v := reflect.ValueOf(ptr).Elem()
 	want := reflect.TypeOf(sample)
-	n := 0
-	var found reflect.Value
+	var cands []int
 	for i := 0; i < v.NumField(); i++ {
 		if v.Field(i).Type() == want {
-			found = v.Field(i)
-			n++
+			cands = append(cands, i)
 		}
 	}
-	if n != 1 {
-		return reflect.Value{}, fmt.Errorf("verif hook: %d fields of type %v in %T (expected exactly one)", n, want, ptr)
+	pick := -1
+	if len(cands) == 1 {
+		pick = cands[0]
+	} else if len(cands) > 1 {
+		n := 0
+		for _, i := range cands {
+			for _, nm := range names {
+				if v.Type().Field(i).Name == nm {
+					pick = i
+					n++
+				}
+			}
+		}
+		if n != 1 {
+			pick = -1
+		}
 	}
+	if pick < 0 {
+		return reflect.Value{}, fmt.Errorf("verif hook: %d fields of type %v in %T (expected exactly one, or exactly one named %v)", len(cands), want, ptr, names)
+	}
+	found := v.Field(pick)
 	return reflect.NewAt(found.Type(), unsafe.Pointer(found.UnsafeAddr())).Elem(), nil
 }
 
-func verifMust(ptr any, sample any) reflect.Value {
-	v, err := verifField(ptr, sample)
+func verifMust(ptr any, sample any, names ...string) reflect.Value {
+	v, err := verifField(ptr, sample, names...)
 	if err != nil {
 		panic(err)
 	}
@@ -44,16 +62,16 @@ func verifMust(ptr any, sample any) reflect.Value {
 }
 
 func (s *Session) verifParticipants() map[uint32]*Participant {
-	return verifMust(s, map[uint32]*Participant{}).Interface().(map[uint32]*Participant)
+	return verifMust(s, map[uint32]*Participant{}, "participants").Interface().(map[uint32]*Participant)
 }
 func (s *Session) verifEntities() map[uint32]*Entity {
-	return verifMust(s, map[uint32]*Entity{}).Interface().(map[uint32]*Entity)
+	return verifMust(s, map[uint32]*Entity{}, "entities").Interface().(map[uint32]*Entity)
 }
 func (s *Session) verifFrameHandlers() map[uint32]func() {
-	return verifMust(s, map[uint32]func(){}).Interface().(map[uint32]func())
+	return verifMust(s, map[uint32]func(){}, "frameHandlers").Interface().(map[uint32]func())
 }
 func (s *SessionStore) verifSessions() map[string]*Session {
-	return verifMust(s, map[string]*Session{}).Interface().(map[string]*Session)
+	return verifMust(s, map[string]*Session{}, "sessions").Interface().(map[string]*Session)
 }
 
 // VerifSelfTest: do the structs still have exactly one field of every type the hooks look for?
@@ -71,8 +89,12 @@ func VerifSelfTest() (err error) {
 	st.verifSessions()
 	st.VerifIDs()
 	ec := s.GetEntityComponents()
-	for _, sample := range []any{map[uint32]string{}, map[string]uint32{}, map[uint32]map[uint32]*hagallpb.EntityComponent{}, map[uint32]map[uint32]struct{}{}} {
-		if _, e := verifField(ec, sample); e != nil {
+	for _, sn := range []struct {
+		sample any
+		name   string
+	}{{map[uint32]string{}, "nameIndex"}, {map[string]uint32{}, "idIndex"}, {map[uint32]map[uint32]*hagallpb.EntityComponent{}, "entityComponents"},
+		{map[uint32]map[uint32]struct{}{}, "subscriptions"}} {
+		if _, e := verifField(ec, sn.sample, sn.name); e != nil {
 			return e
 		}
 	}
@@ -125,18 +147,18 @@ func (s *Session) VerifDump() VerifSessionDump {
 	}
 	d.Frames = len(s.verifFrameHandlers())
 	ec := s.GetEntityComponents()
-	for id, n := range verifMust(ec, map[uint32]string{}).Interface().(map[uint32]string) {
+	for id, n := range verifMust(ec, map[uint32]string{}, "nameIndex").Interface().(map[uint32]string) {
 		d.Types[id] = n
 	}
-	for n, id := range verifMust(ec, map[string]uint32{}).Interface().(map[string]uint32) {
+	for n, id := range verifMust(ec, map[string]uint32{}, "idIndex").Interface().(map[string]uint32) {
 		d.TypeIDs[n] = id
 	}
-	for _, m := range verifMust(ec, map[uint32]map[uint32]*hagallpb.EntityComponent{}).Interface().(map[uint32]map[uint32]*hagallpb.EntityComponent) {
+	for _, m := range verifMust(ec, map[uint32]map[uint32]*hagallpb.EntityComponent{}, "entityComponents").Interface().(map[uint32]map[uint32]*hagallpb.EntityComponent) {
 		for _, c := range m {
 			d.Components = append(d.Components, c)
 		}
 	}
-	for t, m := range verifMust(ec, map[uint32]map[uint32]struct{}{}).Interface().(map[uint32]map[uint32]struct{}) {
+	for t, m := range verifMust(ec, map[uint32]map[uint32]struct{}{}, "subscriptions").Interface().(map[uint32]map[uint32]struct{}) {
 		for p := range m {
 			d.Subs[t] = append(d.Subs[t], p)
 		}
